@@ -8,7 +8,7 @@ import (
 	"github.com/tonistiigi/fsutil/zz_verif/v"
 )
 
-func entryEqual(s, d *m.Entry, withMode bool) bool {
+func vh_entryEqual(s, d *m.Entry, withMode bool) bool {
 	ok := v.And(d.Kind == s.Kind, d.Uid == s.Uid, d.Gid == s.Gid, d.Mtime == s.Mtime, d.Target == s.Target, string(d.Data) == string(s.Data), d.Rdev == s.Rdev)
 	if withMode {
 		ok = v.And(ok, d.Perm == s.Perm)
@@ -23,7 +23,7 @@ func entryEqual(s, d *m.Entry, withMode bool) bool {
 func VH_C13_single() {
 	m.Reset()
 	src, dst := m.Root("src"), m.Root("dst")
-	symCopyTree(src, 1, 1|4) // f, d, d/g, l -> f
+	vh_symCopyTree(src, 1, 1|4) // f, d, d/g, l -> f
 	setgidRoot := v.Bool("setgid-dst-root")
 	if setgidRoot {
 		// the destination root is set-group-ID with a foreign group: whatever Copy creates below it
@@ -49,11 +49,11 @@ func VH_C13_single() {
 		ci.Utime = &tm
 	}
 	srcPath := []string{"t/f", "t/l", "t/l", "t/d"}[what]
-	if what == 1 && findEntry(srcSnap, "t/l") == nil {
+	if what == 1 && vh_findEntry(srcSnap, "t/l") == nil {
 		return
 	}
 	if what == 2 {
-		if findEntry(srcSnap, "t/l") == nil {
+		if vh_findEntry(srcSnap, "t/l") == nil {
 			return
 		}
 		ci.FollowLinks = true
@@ -68,11 +68,11 @@ func VH_C13_single() {
 		return
 	}
 	after := m.Snapshot(dst)
-	want := findEntry(srcSnap, srcPath)
+	want := vh_findEntry(srcSnap, srcPath)
 	if what == 2 {
-		want = findEntry(srcSnap, "t/f") // the link target
+		want = vh_findEntry(srcSnap, "t/f") // the link target
 	}
-	got := findEntry(after, dstPath)
+	got := vh_findEntry(after, dstPath)
 	if got == nil {
 		v.Assert(false, "the entry exists at the destination path")
 		return
@@ -82,21 +82,21 @@ func VH_C13_single() {
 		v.Assert(got.Kind == want.Kind && string(got.Data) == string(want.Data) && got.Target == want.Target, "the copied entry has the source's type, bytes and link target")
 		v.Assert(got.Uid == wantUID && got.Gid == wantUID && got.Mtime == 1234000000000, "the copied entry carries the requested owner and timestamp")
 	} else {
-		v.Assert(entryEqual(want, got, want.Kind != m.KSymlink), "the copied entry equals the source entry (a symlink is copied, not followed)")
+		v.Assert(vh_entryEqual(want, got, want.Kind != m.KSymlink), "the copied entry equals the source entry (a symlink is copied, not followed)")
 	}
 	if what == 3 {
 		v.Cover("sub-directory")
 		n := 0
 		for i := range srcSnap {
-			if isUnder(srcSnap[i].Path, "t/d") {
+			if vh_isUnder(srcSnap[i].Path, "t/d") {
 				n++
-				d := findEntry(after, dstPath+srcSnap[i].Path[len("t/d"):])
+				d := vh_findEntry(after, dstPath+srcSnap[i].Path[len("t/d"):])
 				v.Assert(d != nil && string(d.Data) == string(srcSnap[i].Data), "the contents of a copied sub-directory are reproduced")
 			}
 		}
 		m2 := 0
 		for i := range after {
-			if isUnder(after[i].Path, dstPath) {
+			if vh_isUnder(after[i].Path, dstPath) {
 				m2++
 			}
 		}
@@ -105,7 +105,7 @@ func VH_C13_single() {
 	if nested {
 		v.Cover("created-parents")
 		for _, p := range []string{"a", "a/b"} {
-			d := findEntry(after, p)
+			d := vh_findEntry(after, p)
 			if d == nil || d.Kind != m.KDir {
 				v.Assert(false, "missing parents of the destination path are created as directories")
 				continue
